@@ -195,6 +195,7 @@ theorem not_found_changes_nothing (s : St) (op : Op) (h : (step s op).2 = .nf) :
         · simp at h
         · exact hc _ _ h
   case delStream k => unfold delStream at h ⊢; split at h <;> simp_all
+  case setDefaults k v => unfold setDefaults at h ⊢; split at h <;> simp_all
   case upload k st su c =>
     unfold upload at h ⊢
     split at h
